@@ -1044,13 +1044,10 @@ Section Invariant.
     intros s0 s H. unfold retry_loop.
     set (s1 := set_ctx s _). assert (H1 : ext s0 s1) by now apply ext_set_ctx.
     repeat (apply ext_lift; [exact H1|intros ?]).
-    repeat match goal with
-           | |- ext _ (snd (match ?x with _ => _ end)) =>
-               lazymatch x with
-               | poll _ _ _ _ _ _ => fail
-               | _ => destruct x; auto
-               end
-           end.
+    match goal with
+    | |- ext _ (snd (match ?x with _ => _ end)) => destruct x as [interval|]; [|exact H1]
+    end.
+    apply ext_lift; [exact H1|intros mx].
     match goal with
     | |- context [poll ?f ?it ?iv ?mx ?i s1] =>
         pose proof (good_poll f it iv mx (good_retry_iter rc sp k mx) i s0 s1 H1) as G;
